@@ -13,7 +13,9 @@ CFG = {
     "level_note": "The spec oracle judges the implementation's answer by maximality among the matching artifacts, not by equality with the model's "
                   "tie-break (last maximum). PARTIAL for the TOML round trip: proved at the level of the serde record of an artifact "
                   "(os/arch names, url, `name:hex` checksum string, user codecs for version and metadata); the TOML text layer (crate toml) is "
-                  "not modelled and is exercised by the correspondence only (urls/checksum names with quotes, newlines, non-ASCII). "
+                  "not modelled and is exercised by the correspondence only (urls/checksum names with quotes, newlines, non-ASCII; family R: version "
+                  "and metadata types of every TOML shape - plain values, arrays, tables, optional tables, arrays / maps of tables - rendered with "
+                  "Display and parsed with FromStr, equality observed by the harness and judged by the driver). "
                   "Trusted: Lean kernel; Spec/Inventory.lean (my reading of the property); harness and driver glue. Modelled, not verified: "
                   "Iterator::max_by_key returns the last maximum, hex::decode/encode, str::split_once, serde derive for Os/Arch.",
     "shrink": [(1, ","), (2, ",")],
@@ -24,8 +26,35 @@ CFG = {
             "artifacts, 3x3 version grid / 4 integers, metadata None/0/1 with metadata requirements. F 1.5k/20k: TOML render + parse of "
             "inventories with awkward urls and checksum names. K: 11 prefixes x every body over {0,a,F,g} of length <= 5 (6 thorough) against "
             "the 2-byte digest; every body over {0,a,F,g,+,-,' ',x} of length <= 4 (5 thorough) after 'd2:'; one or two special characters (+ - blank tab _ x X g G NUL . : and 2-/3-byte characters e-acute, check mark, full-width zero) at every position (even and odd offsets) of bodies of 1..5 slots, and inserted at / replacing every position of the algorithm name, for the 2-byte and the unconstrained digest; a valid 64-digit string with each special at every offset (byte length kept) and '+a' x 32 for the 32-byte digest; 6k/60k sampled strings around 64 digits for a 32-byte digest, the unconstrained digest `()`, mixed case, one "
-            "bad character, missing colon. non-trivial: T/P = two artifacts share OS and arch (some query has several candidates); "
-            "F = at least one artifact; K = the string holds a colon; distinct = distinct input line",
+            "bad character, missing colon. Directed families (sizes = 16/17, 20/21, 32/33, 64/65, 128/129, 256/257, thorough also 500, 1000, 2000): "
+            "T-big — inventories of that many artifacts in 13 shapes (ascending, descending, all equal, three values, u32 boundary pool, single "
+            "maximum first / last / middle / at position 32 / 33, maximum repeated every 5th, sawtooth, only every 7th artifact matching), "
+            "P-big — 14 shapes under the product order (antichain (i,250-i) both directions, antichain + top element first / last / middle, "
+            "+ bottom element, + several tops, two antichains one above the other, chain both directions, 16x16 grid, all equal, antichain with "
+            "duplicates, random); 16-30 queries each: all 4 OS/arch, requirement forms built from versions that occur (set, single, >=v, <v, "
+            "window lo_hi, none), metadata conditions, 1/4 of the questions asked through a requirement type that implements only "
+            "VersionRequirement (the library's blanket impl of ArtifactRequirement; query metadata field `v`), the same question repeated; every 4th case interleaved (queries `N@...` asked on the "
+            "same Inventory object while it grows through 0, 1, 2 and every threshold below its size, then one step back); T-values / P-values "
+            "600 / 6 000 — up to 10 artifacts over u32 boundary values (0..2^32-1 around every power-of-two and decimal-length boundary) and "
+            "their neighbours, pairs over {0,1,2,3,127,128,254,255}^2 with swapped / shifted neighbours, metadata None/0/1/2/127/128/254/255; "
+            "F-text — 73 urls (BOM, LF, CRLF, lone CR, C0/C1 controls, NUL, DEL, NBSP, U+2028/9, every quote run, backslashes, TOML look-alikes "
+            "true/inf/nan/dates/table headers/comments, non-BMP, RTL mark, combining, U+FFFD/FFFF/10FFFF, 255..4096 characters), 53 checksum "
+            "names (empty, blanks, line ends, BOM, case variants, quotes, controls, non-ASCII, TOML punctuation, 255..4096 characters), 17 "
+            "digests (empty .. 2048 bytes, upper case) each on its own; F-wide 300 / 3 000 mixed inventories of 0..12 artifacts (1/4 with one "
+            "metadata value throughout), F-big of the sizes (mixed; n distinct plain artifacts; one artifact n times); K-decorated — 6 valid "
+            "strings (2-, 32-, 64-byte, unconstrained digests, empty name / digest) x 22 decorations (LF, CRLF, CR, blank, tab, BOM, NUL, NBSP, "
+            "U+2028, NEL, 0x, quotes, ':', ';', ...) before / after / around the colon / both ends, case variants of the name; K-long — digests "
+            "of 32, 64, 128, 256, 2048 bytes +-2 digits for the 64-byte (sha512) and the unconstrained digest, one bad character (g + blank LF) "
+            "at the end / at digit 64 / 129 / the middle, names and digit runs of 255..4096 characters, colons only. "
+            "R (round trip through Inventory's Display/to_string and FromStr with typed versions and metadata; judged directly: parsed artifacts "
+            "== original, field by field, and the second rendering == the first) — 4 version types (u32, String, tuple struct = array, struct = "
+            "table) x 19 metadata types (Option<()> None, Option<u8>, i64, f64, bool, String, unit-variant enum, Vec<u32>, Vec<String>, tuple, "
+            "newtype, struct = table, BTreeMap<String,String>, Option<struct>, Option<map>, struct with optional fields incl. an optional table, "
+            "Vec<struct> = array of tables, map of structs, nested struct holding a table, an optional table, an array and a map of tables) x "
+            "inventories of 0, 1, 2, 3, 17, 33 (thorough 65, 257) artifacts, then 4 / 40 more draws at 1, 2, 3, 5 artifacts; values derived "
+            "from 46 texts (empty, multi-line, CRLF, quotes, backslash, non-ASCII, BOM, NUL, DEL, blanks, TOML look-alikes, keys needing quotes, "
+            "255..600 characters), 1/4 of the inventories with one text throughout. non-trivial: T/P = two artifacts share OS and arch (some query has several candidates); "
+            "F, R = at least one artifact; K = the string holds a colon; distinct = distinct input line",
     "exhaustive": True,
     "search_rounds": 1,
     "search_tier": "quick",
